@@ -1,7 +1,9 @@
 (* C14 — packet filters decide exactly the documented boolean function.
    Property theorems only; proofs live in Proofs/FilterProofs.v. *)
-From Coq Require Import NArith.
-From HN Require Import Base.Bytes Model.Filter Spec.FilterSpec Proofs.FilterProofs.
+From Coq Require Import List NArith Bool Permutation.
+From HN Require Import Base.Bytes Model.Filter Spec.FilterSpec Proofs.FilterProofs Proofs.FilterLaws.
+Import ListNotations.
+Open Scope N_scope.
 
 Theorem C14_filter_decides_documented_rule :
   forall (c : cfg_src) (src dst : ip) (sport dport : N),
@@ -13,3 +15,60 @@ Check C14_filter_decides_documented_rule :
     cfg_wf c = true -> ip_wf src = true -> ip_wf dst = true ->
     model_filter c src dst sport dport = spec_filter c src dst sport dport.
 Print Assumptions C14_filter_decides_documented_rule.
+
+(* Laws of the transcription of filter.rs itself (no reference to the spec in the statements). *)
+
+Theorem C14_no_subfilter_admits_all :
+  forall c src dst sp dp, has_subfilter c = false -> model_filter c src dst sp dp = true.
+Proof. exact no_subfilter_admits_all. Qed.
+Check C14_no_subfilter_admits_all :
+  forall c src dst sp dp, has_subfilter c = false -> model_filter c src dst sp dp = true.
+Print Assumptions C14_no_subfilter_admits_all.
+
+Theorem C14_deny_is_complement_of_allow :
+  forall c src dst sp dp, has_subfilter c = true ->
+    model_filter (with_mode c true) src dst sp dp = negb (model_filter (with_mode c false) src dst sp dp).
+Proof. exact deny_is_complement. Qed.
+Check C14_deny_is_complement_of_allow :
+  forall c src dst sp dp, has_subfilter c = true ->
+    model_filter (with_mode c true) src dst sp dp = negb (model_filter (with_mode c false) src dst sp dp).
+Print Assumptions C14_deny_is_complement_of_allow.
+
+Theorem C14_allow_is_conjunction :
+  forall c src dst sp dp, c_deny c = false ->
+    model_filter c src dst sp dp =
+      opt_test (c_port c) (fun ops => pf_matches (build_port ops) sp dp)
+      && opt_test (c_ip c) (fun ops => if_matches (build_ip ops) src dst)
+      && opt_test (c_sub c) (fun ops => sf_matches (build_sub ops) src dst).
+Proof. exact allow_is_conjunction. Qed.
+Print Assumptions C14_allow_is_conjunction.
+
+Theorem C14_port_builder_order_irrelevant :
+  forall ops ops' sp dp, Permutation ops ops' ->
+    pf_matches (build_port ops) sp dp = pf_matches (build_port ops') sp dp.
+Proof. exact port_order_irrelevant. Qed.
+Check C14_port_builder_order_irrelevant :
+  forall ops ops' sp dp, Permutation ops ops' ->
+    pf_matches (build_port ops) sp dp = pf_matches (build_port ops') sp dp.
+Print Assumptions C14_port_builder_order_irrelevant.
+
+Theorem C14_range_is_half_open :
+  forall a b p, pf_matches (build_port [PDstRange a b]) 0 p = (a <=? p) && (p <? b).
+Proof. exact range_boundaries. Qed.
+Print Assumptions C14_range_is_half_open.
+
+Theorem C14_prefix_zero_contains_all :
+  forall w n x, x < 2 ^ w -> n < 2 ^ w -> net_contains w (n, 0) x = true.
+Proof. exact prefix_zero_contains_all. Qed.
+Print Assumptions C14_prefix_zero_contains_all.
+
+Theorem C14_prefix_full_is_equality :
+  forall w n x, x < 2 ^ w -> n < 2 ^ w -> net_contains w (n, w) x = (x =? n).
+Proof. exact prefix_full_is_equality. Qed.
+Print Assumptions C14_prefix_full_is_equality.
+
+Theorem C14_source_only_ignores_destination :
+  forall ops src dst dst',
+    if_matches (build_ip (ops ++ [ISrcOnly])) src dst = if_matches (build_ip (ops ++ [ISrcOnly])) src dst'.
+Proof. exact source_only_ignores_destination. Qed.
+Print Assumptions C14_source_only_ignores_destination.
